@@ -274,6 +274,64 @@ def case_store(case):
     return finish_case(I, res)
 
 
+def case_load(case):
+    """config::load_config: an explicit -c path always wins over the ancestor search; without -c the nearest typeshare.toml is
+    loaded, else the defaults.  toml::from_str is a stub that tags the returned Config with the file's text."""
+    depth, explicit = case
+    P = prog()
+    L = P.layout
+    I = new_interp(P)
+    res = {"paths": 0, "violations": [], "case": list(case)}
+    dirs = ["/" + "/".join("d%d" % i for i in range(1, k + 1)) for k in range(0, depth + 1)]
+    dirs[0] = "/"
+
+    def entry(I):
+        fs = Fs()
+        for d in dirs:
+            fs.add_dir(d)
+        fs.add_dir("/cfg")
+        pres = [z3.Bool("p%d" % k) for k in range(len(dirs))]
+        fs.symbolic_files = {}
+        for k, d in enumerate(dirs):
+            path = d.rstrip("/") + "/typeshare.toml"
+            fs.symbolic_files[path] = pres[k]
+            fs.symbolic_content[path] = [ord(c) for c in "L%d" % k]
+        fs.add_file("/cfg/explicit.toml", [ord(c) for c in "EX"])
+        I.env["fs"] = fs
+        I.env["cwd"] = dirs[-1]
+
+        def from_str(I, text):
+            cfg = I.call_static("<config::Config as std::default::Default>::default", [])
+            cfg.fields[L.structs["Config"].index("swift")].fields[L.structs["SwiftParams"].index("prefix")] = RString(list(unbox(text).chars))
+            return OK(cfg)
+        I.env["toml_from_str"] = from_str
+        arg = SOME(Ref([RPath(S("/cfg/explicit.toml"))], 0)) if explicit else NONE()
+        r = I.call_static("config::load_config", [arg])
+        return pres, r
+
+    for kind, out, pc in I.explore(entry, max_paths=200):
+        res["paths"] += 1
+        if kind == "panic":
+            res["violations"].append({"kind": "panic", "msg": out.msg}); continue
+        pres, r = out
+        if r.variant != 0:
+            res["violations"].append({"kind": "load-error", "msg": repr(r.fields[0])}); continue
+        got = pystr(r.fields[0].fields[L.structs["Config"].index("swift")].fields[L.structs["SwiftParams"].index("prefix")])
+        if explicit:
+            okc = z3.BoolVal(got == "EX")
+        elif got == "":
+            okc = z3.Not(z3.Or(pres))
+        else:
+            k = int(got[1:]) if got.startswith("L") and got[1:].isdigit() else None
+            if k is None:
+                res["violations"].append({"kind": "wrong-config-file", "got": got}); continue
+            okc = z3.And([pres[k]] + [z3.Not(pres[j]) for j in range(k + 1, len(dirs))])
+        m = I.sat_model(z3.Not(okc))
+        if m is not None:
+            res["violations"].append({"kind": "wrong-config-file", "got": got, "explicit": explicit, "present": [bool(z3.is_true(m.eval(p, model_completion=True))) for p in pres]})
+    return finish_case(I, res)
+
+
 def case_find(depth):
     """cwd = /d1/../d<depth>; typeshare.toml present in ancestor k <=> symbolic Bool p_k"""
     P = prog()
@@ -378,12 +436,13 @@ def run(rep, tier, only=None):
                 cases.append((lang, m, cl, fl))
     rep.bounds = {"options": [o[0] for o in OPTIONS], "presence": "every subset of the seven options on the command line (all 128, both tiers)",
                   "values": "CLI and file values symbolic strings over [A-Za-z.]; (CLI length, file length) in quick: (0,1),(1,1),(1,0); thorough: all of {0,1,2}^2", "languages": langs,
-                  "store_config": "existing / missing target, explicit / default path", "find_configuration_file": "cwd depth 0..4, presence in every ancestor symbolic"}
+                  "store_config": "existing / missing target, explicit / default path", "find_configuration_file": "cwd depth 0..4, presence in every ancestor symbolic", "load_config": "cwd depth 0..3, presence in every ancestor symbolic, with and without an explicit -c file (toml::from_str stubbed: the returned Config is tagged with the text of the file that was read)"}
     rep.outside = ["TOML serialisation / deserialisation (toml crate) is not encoded: the -g round trip is only probed concretely (three configurations through the real store_config + load_config on every run)", "clap's argument parsing"]
     rep.assumptions = ["toml::to_string_pretty is a stub returning an opaque non-empty text", "Config / Args values are built directly (clap and toml are not executed)"]
     tcases = [(l, m, f) for l in ("Swift", "Kotlin", "Scala", "TypeScript", "Go", "Python") for m in (False, True) for f in (False, True)]
     rep.bounds["tables"] = "type_mappings of all six sections, Swift default_decorators / codablevoid_constraints / default_generic_constraints, Go uppercase_acronyms / no_pointer_slice with symbolic entries: each reaches the back-end value of its own language unchanged; multi_file reaches Swift"
-    groups = [("override", "case_override", cases), ("tables", "case_tables", tcases), ("store_config", "case_store", [(e, g) for e in (False, True) for g in (False, True)]), ("find_config", "case_find", list(range(0, 5)))]
+    groups = [("override", "case_override", cases), ("tables", "case_tables", tcases), ("store_config", "case_store", [(e, g) for e in (False, True) for g in (False, True)]), ("find_config", "case_find", list(range(0, 5))),
+              ("load_config", "case_load", [(d, e) for d in range(0, 4) for e in (False, True)])]
     for gname, fn, cs in groups:
         if only and gname not in only:
             continue
@@ -503,6 +562,12 @@ def native_cli(gname, case, v):
             if not exists and (not now or "ok" not in r):
                 return True, "store_config did not write a missing config file: %s" % (r,), payload
             return False, "real store_config behaves (%s, content %r)" % (r, now), None
+        if gname == "load_config":
+            depth, explicit = case
+            present = v.get("present") or [True] * (depth + 1)
+            payload = {"op": "load_config", "depth": depth, "explicit": explicit, "present": present}
+            ok, why = real_find(d, depth, present, explicit=explicit)
+            return (True, why, payload) if not ok else (False, why, None)
         if gname == "find_config":
             depth = case
             present = v["present"]
@@ -554,7 +619,7 @@ def real_tables(d, lang, sec, fld):
     return False, "the real binary's output changes with %s.%s" % (sec, fld)
 
 
-def real_find(d, depth, present):
+def real_find(d, depth, present, explicit=False):
     """ancestors d/ (level 0) .. d/d1/../d<depth>; only levels >= 1 are under our control"""
     import os
     cur = d
@@ -567,8 +632,16 @@ def real_find(d, depth, present):
     for k, dd in enumerate(dirs):
         if present[k] or k == 0:
             open(os.path.join(dd, "typeshare.toml"), "w").write('[swift]\nprefix = "L%d%s"\n' % (k, "" if present[k] else "sentinel"))
-    r = drv().ask({"op": "load_config", "cwd": dirs[-1]})
+    req = {"op": "load_config", "cwd": dirs[-1]}
+    if explicit:
+        ex = os.path.join(d, "explicit.toml")
+        # (outside the ancestor chain of cwd only when depth > 0; the file name differs from typeshare.toml anyway)
+        open(ex, "w").write('[swift]\nprefix = "EX"\n')
+        req["path"] = ex
+    r = drv().ask(req)
     got = r.get("ok", {}).get("swift", {}).get("prefix") if "ok" in r else str(r)
+    if explicit:
+        return got == "EX", "cwd %d levels deep, typeshare.toml present at levels %s, -c explicit.toml given: the real load_config loads %r, expected the explicit file" % (depth, [k for k, p in enumerate(present) if p], got)
     want = None
     for k in range(len(dirs) - 1, -1, -1):
         if present[k]:
@@ -598,6 +671,8 @@ def replay(body):
             ok, why, _ = native_cli("tables", (c["lang"], c["multi"], c["flag"]), {"setting": c["setting"]})
         elif c["op"] == "store_config":
             ok, why, _ = native_cli("store_config", (c["exists"], c["given"]), {})
+        elif c["op"] == "load_config":
+            ok, why, _ = native_cli("load_config", (c["depth"], c["explicit"]), {"present": c["present"]})
         else:
             ok, why, _ = native_cli("find_config", c["depth"], {"present": c["present"]})
         print(why)
